@@ -44,6 +44,7 @@ package client
 //@ func (*Broker).scan
 //@   before call sts.FileSource.Remove assert remove-needs-done-and-policy: called(sts.Cached.IsDone) && lastret(sts.Cached.IsDone, 0) && lastarg(sts.Cached.IsDone, 0) == cached && called((*Broker).canDelete) && lastret((*Broker).canDelete, 0) && lastarg((*Broker).canDelete, 1) == cached && arg1 == cached
 //@   forbid call sts.FileCache.Done label scan-never-marks-done
+//@   on return assert nothing-queued-unless-the-cache-was-written: len(r0) > 0 ==> called(sts.FileCache.Persist) && lastret(sts.FileCache.Persist, 0) == nil
 
 //@ func (*Broker).includeScannedFile
 //@   on return assert definition: result == (file.GetSize() != 0 && (cached == nil || cached.GetSize() != file.GetSize() || cached.GetTime() != file.GetTime()))
